@@ -4,6 +4,7 @@ Explicit-state BFS over operation/event histories of a real client <-> real
 server pair on the virtual loop.  See DESIGN.md section 2 (C07).
 """
 
+import itertools
 import json
 
 import asyncssh
@@ -328,6 +329,7 @@ def main(tier, seed):
     core.bfs(expand, cfgs, depth, acc, max_states=max_states)
     import c19
     acc.merge(core.pmap(reader_worker, c19.inband_jobs(tier), chunksize=2))
+    acc.merge(core.pmap(mixed_decoder_worker, mixed_decoder_jobs()))
     rule = ('BFS over histories of channel operations (write sizes around packet/window '
             'limits, writelines, write_eof, pause/resume) and packet deliveries on a real '
             'client<->server pair; a state is distinct by its canonical form (channel '
@@ -367,6 +369,72 @@ def reader_worker(job):
     return acc
 
 
+# ------------------------------------------------------------------ characters split across packets, data types interleaved
+def mixed_decoder_case(order, enc):
+    """A sender in bytes mode (any other implementation, or a program piping raw output) splits multi-byte characters
+    across writes and alternates between stdout and stderr; the receiver reads text.  Each data type is its own
+    stream: what arrives on one must decode independently of what arrives between its pieces on the other."""
+    text0, text1 = 'aéb€c', 'X\U0001d11eYü'
+    b0, b1 = text0.encode(enc), text1.encode(enc)
+    cut0 = [b0[:2], b0[2:5], b0[5:]] if enc == 'utf-8' else [b0[:3], b0[3:7], b0[7:]]
+    cut1 = [b1[:3], b1[3:6], b1[6:]] if enc == 'utf-8' else [b1[:5], b1[5:9], b1[9:]]
+    loop = P.fresh(0)
+    viol = []
+    try:
+        def on_start(sess):
+            i0 = i1 = 0
+            for which in order:
+                if which == 0:
+                    sess.chan.write(cut0[i0])
+                    i0 += 1
+                else:
+                    sess.chan.write(cut1[i1], STDERR)
+                    i1 += 1
+            sess.chan.write_eof()
+        env = {'session_factory': lambda: P.RecSession('srv', on_start=on_start)}
+        pair = P.Pair(loop, sopts=dict(encoding=None), env=env)
+        pair.handshake()
+        csess = []
+
+        def mk():
+            s = P.RecSession('cli')
+            csess.append(s)
+            return s
+        pair.run(pair.c.create_session(mk, 'cmd', encoding=enc))
+        loop.flush_all()
+        s = csess[0]
+        if pair.c._transport is None:
+            viol.append(('connection-closed', repr(getattr(pair.client_owner, 'lost_exc', None))[:200]))
+        got0, got1 = s.got(None), s.got(STDERR)
+        if got0 != text0 or got1 != text1:
+            viol.append(('final-mismatch', 'stdout %r (sent %r), stderr %r (sent %r)' % (got0, text0, got1, text1)))
+        if not s.eof:
+            viol.append(('eof-lost', 'no EOF'))
+        if loop.unretrieved():
+            viol.append(('loop-exception', repr(loop.exc_log[0].get('exception'))[:200]))
+    except Livelock as exc:
+        viol.append(('livelock', str(exc)))
+    finally:
+        P.done(loop)
+    return viol
+
+
+def mixed_decoder_worker(job):
+    acc = core.Acc()
+    for order, enc in job:
+        viol = mixed_decoder_case(order, enc)
+        acc.add(core.digest(('mixed-decoder', order, enc)), transitions=len(order))
+        for k, d in viol:
+            acc.violation('mixed-decoder:%s:%s' % (k, enc), '%s ; write order (0 = stdout, 1 = stderr) %r' % (d, order), {'kind': 'mixed-decoder', 'order': list(order), 'enc': enc})
+    return acc
+
+
+def mixed_decoder_jobs():
+    orders = sorted(set(itertools.permutations([0, 0, 0, 1, 1, 1])))
+    cases = [(o, enc) for o in orders for enc in ('utf-8', 'utf-16-le')]
+    return [cases[i::8] for i in range(8)]
+
+
 def _canon_of(cfg, hist, seed):
     w = run_hist(cfg, hist, seed)
     try:
@@ -376,6 +444,13 @@ def _canon_of(cfg, hist, seed):
 
 
 def replay(rep):
+    if rep['replay'].get('kind') == 'mixed-decoder':
+        v = mixed_decoder_case(tuple(rep['replay']['order']), rep['replay']['enc'])
+        print(json.dumps(v, indent=1))
+        if v:
+            print('VIOLATION property=%s replay=(given)' % PROP)
+            return 1
+        return 0
     if rep['replay'].get('kind') == 'reader':
         import c19
         r = rep['replay']
